@@ -170,7 +170,7 @@ JOBS['C14'] = [
 
 # ---------------------------------------------------------------- C13
 META['C13'] = {
-    'bounds': {'quick': '13 pattern templates (literals, anchors, word boundaries, empty-matching, group, alternation) with symbolic placeholder characters over {a b U+00E9} x buffers of 2 lines of <=3 characters over that alphabet plus space x every cursor position x both directions (lbuf_search); vi level: / ? n N with counts on a fixed buffer family',
+    'bounds': {'quick': '13 pattern templates (literals, anchors, word boundaries, empty-matching, group, alternation) with symbolic placeholder characters over {a b U+00E9} x buffers of 2 lines of <=2 characters (<=3 for the templates x, xy, x*) over that alphabet plus space x every cursor position x both directions (lbuf_search); vi level: / ? n N with counts on a fixed buffer family',
                'thorough': '3 lines, ignorecase symbolic'},
     'outside': 'longer lines/buffers; patterns outside the templates; ^A word search (vi job only in thorough)',
     'assumptions': ['a match may begin on the line terminator (the cursor is clamped afterwards by the vi loop); successive matches are enumerated left to right until the scan reaches the terminator'],
@@ -179,6 +179,9 @@ JOBS['C13'] = [
     {'name': 'lbuf_search', 'harness': 'c13_search.c', 'units': ['lbuf', 'mot', 'sbuf', 'uc', 'rstr', 'rset', 'regex'],
      'defs': {'quick': {'LL': 2, 'NLN': 2}, 'thorough': {'LL': 3, 'NLN': 2, 'SYMIC': 1}},
      'expect_reach': ['end', 'found', 'notfound'], 'timeout': {'quick': 280, 'thorough': 1700}},
+    {'name': 'lbuf_search_3', 'harness': 'c13_search.c', 'units': ['lbuf', 'mot', 'sbuf', 'uc', 'rstr', 'rset', 'regex'], 'tiers': ['quick'],
+     'defs': {'LL': 3, 'NLN': 2, 'TMASK': '0x13'},
+     'expect_reach': ['end', 'found', 'notfound'], 'timeout': 280},
 ]
 
 # ---------------------------------------------------------------- C15
